@@ -361,7 +361,7 @@ theorem C05_resources_progress (env : Env) (hE : EnvOK env) :
     obtain ⟨tl, htl⟩ := C05_resources_progress env hE rest (fun kr hkr => h kr (by simp [hkr]))
     obtain ⟨v, hv, _⟩ := C05_resolve_progress env hE r .any hwt
     cases b with
-    | true => exact ⟨(k, v) :: tl, by simp [resolveResources, hb, htl, hv]⟩
+    | true => exact ⟨(k, keepConditionName r v) :: tl, by simp [resolveResources, resolveResource, hb, htl, hv]⟩
     | false => exact ⟨tl, by simp [resolveResources, hb, htl]⟩
 
 end PycfModel.Template
